@@ -129,3 +129,12 @@ func Fault(name string) error {
 	}
 	return nil
 }
+
+// SetFault arms (or with n = 0 disarms) the fault point `name` to fail at its n-th call from now.
+// For harnesses that run many cases in one process.
+func SetFault(name string, n int) {
+	mu.Lock()
+	defer mu.Unlock()
+	initOnce()
+	faultName, faultAt, faultCount = name, n, 0
+}
